@@ -114,3 +114,137 @@ class RomRead(Contract):
             for pad in (True, False):
                 for addr in range(-1, 10):
                     yield ('%s pad=%s addr=%d' % (kind, pad, addr), mk(kind, pad, addr))
+
+
+# ------------------------------------------------------------------------------ port builders (C08)
+def _mem_model(I, max_read=None, max_write=None):
+    """a MemBlock record with symbolic geometry and port counters"""
+    import z3
+    from pyvc.engine import SObj
+    st = I.st
+    m = SObj('MemBlock', dict(id=st.fresh_int('memid'), bitwidth=st.fresh_int('membw'),
+                              addrwidth=st.fresh_int('memaw'), name='m',
+                              num_read_ports=st.fresh_int('nrp'), num_write_ports=st.fresh_int('nwp'),
+                              max_read_ports=max_read, max_write_ports=max_write,
+                              readport_nets=[], writeport_nets=[]))
+    f = m.fields
+    st.assume(z3.And(f['bitwidth'].t >= 1, f['addrwidth'].t >= 1, f['num_read_ports'].t >= 0,
+                     f['num_write_ports'].t >= 0))
+    return m
+
+
+class _PortContract(Contract):
+    module = 'pyrtl.memory'
+
+    @property
+    def hooks(self):
+        from contracts import wiremodel as W
+        from pyvc.engine import ClassVal
+        return W.hooks({'classattr:MemBlock.EnabledWrite': ClassVal('EnabledWrite')})
+
+
+@register
+class BuildReadPort(_PortContract):
+    """MemBlock._build_read_port(addr): adds exactly one well-formed 'm' net (memid = the memory's id,
+    the memory itself, the given address wire) whose destination is a new wire of the memory's
+    bitwidth, records it, counts the port; refuses when the port limit is exceeded."""
+    qualname, props = 'MemBlock._build_read_port', ('C08',)
+
+    def cases(self):
+        return ['unlimited', 'limited']
+
+    def setup(self, I, case):
+        from contracts import wiremodel as W
+        lim = None if case == 'unlimited' else I.st.fresh_int('max_read_ports')
+        m = _mem_model(I, max_read=lim)
+        a = W.input_wire(I, 'addr')
+        I.st.assume(W.bw_of(a) == m.fields['addrwidth'].t)
+        return NS(self=m, args=[a], m=m, a=a, lim=None if lim is None else lim.t,
+                  n0=m.fields['num_read_ports'].t, I=I)
+
+    def raises(self, ns):
+        if ns.lim is None:
+            return [('PyrtlError', False)]
+        return [('PyrtlError', ns.n0 + 1 > ns.lim)]
+
+    def post(self, ns):
+        import z3
+        from contracts import wiremodel as W
+        from pyvc.engine import SObj, term
+        r, m = ns.result, ns.m
+        nets = W.block_of(ns.I).fields['_nets']
+        out = [('exactly one net is added', z3.BoolVal(len(nets) == 1))]
+        if len(nets) != 1 or not isinstance(r, SObj):
+            return out
+        f = nets[0].fields
+        out += [('it is a read port of this memory', z3.BoolVal(f['op'] == 'm' and f['op_param'][1] is m and
+                                                                 len(f['args']) == 1 and f['args'][0] is ns.a and
+                                                                 len(f['dests']) == 1 and f['dests'][0] is r)),
+                ('memid is the memory id', term(f['op_param'][0]) == m.fields['id'].t),
+                ('data wire has the memory bitwidth', W.bw_of(r) == m.fields['bitwidth'].t),
+                ('the port is recorded', z3.BoolVal(len(m.fields['readport_nets']) == 1 and
+                                                    m.fields['readport_nets'][0] is nets[0]))]
+        if ns.lim is not None:
+            out.append(('the port is counted', term(m.fields['num_read_ports']) == ns.n0 + 1))
+        return out
+
+
+@register
+class MemAssignment(_PortContract):
+    """MemBlock._assignment(item, val, is_conditional=False): one well-formed '@' net
+    (address, data, enable) for this memory; address / data zero-extended to the memory geometry;
+    a plain value is written with enable 1; over-wide address / data and a multi-bit enable are
+    refused, as is exceeding the write-port limit."""
+    qualname, props = 'MemBlock._assignment', ('C08',)
+    parallel = True
+
+    def cases(self):
+        return ['plain', 'enabled', 'enabled_limited']
+
+    def setup(self, I, case):
+        from contracts import wiremodel as W
+        from pyvc.engine import SObj
+        lim = I.st.fresh_int('max_write_ports') if case.endswith('limited') else None
+        m = _mem_model(I, max_write=lim)
+        a, d = W.input_wire(I, 'addr'), W.input_wire(I, 'data')
+        if case == 'plain':
+            val, en = d, None
+        else:
+            en = W.input_wire(I, 'enable')
+            val = SObj('EnabledWrite', dict(data=d, enable=en))
+        return NS(self=m, args=[a, val, False], m=m, a=a, d=d, en=en, I=I,
+                  lim=None if lim is None else lim.t, n0=m.fields['num_write_ports'].t)
+
+    def raises(self, ns):
+        from contracts import wiremodel as W
+        f = ns.m.fields
+        bad = H.Or(W.bw_of(ns.a) > f['addrwidth'].t, W.bw_of(ns.d) > f['bitwidth'].t)
+        if ns.en is not None:
+            bad = H.Or(bad, W.bw_of(ns.en) != 1)
+        if ns.lim is not None:
+            bad = H.Or(bad, ns.n0 + 1 > ns.lim)
+        return [('PyrtlError', bad)]
+
+    def post(self, ns):
+        import z3
+        from contracts import wiremodel as W
+        from pyvc.engine import term
+        m = ns.m
+        nets = [n for n in W.block_of(ns.I).fields['_nets'] if n.fields['op'] == '@']
+        out = [('exactly one write port is added', z3.BoolVal(len(nets) == 1))]
+        if len(nets) != 1:
+            return out
+        f = nets[0].fields
+        if len(f['args']) != 3 or f['dests'] != ():
+            return out + [('shape (addr, data, enable) -> ()', z3.BoolVal(False))]
+        a, d, e = f['args']
+        out += [('it belongs to this memory', z3.BoolVal(f['op_param'][1] is m)),
+                ('memid is the memory id', term(f['op_param'][0]) == m.fields['id'].t),
+                ('address: memory addrwidth, same value', H.And(W.bw_of(a) == m.fields['addrwidth'].t,
+                                                                 W.den_of(a) == W.den_of(ns.a))),
+                ('data: memory bitwidth, same value', H.And(W.bw_of(d) == m.fields['bitwidth'].t,
+                                                             W.den_of(d) == W.den_of(ns.d))),
+                ('enable: one bit, the given enable or constant 1',
+                 H.And(W.bw_of(e) == 1, W.den_of(e) == (W.den_of(ns.en) if ns.en is not None else 1))),
+                ('the port is recorded', z3.BoolVal(len(m.fields['writeport_nets']) == 1))]
+        return out
